@@ -90,7 +90,7 @@ static Verdict runC06(const Case &cs) {
       if (!b) return v;
       Conf cf; cf.la = la; cf.one = 1; cf.rec = rec; cf.match = match;
       ParseOpts po; po.analyse_tree = false;
-      yaep_verif.rec_limit = 20000;
+      yaep_verif.rec_limit = REC_LIMIT;
       Outcome o = runParse(*b, codes, cf, po);
       v.parses++;
       std::string where = " [" + cf.str() + " input=" + inputStr(codes) + " reference error token=" + std::to_string(re) + "] got " + o.str();
@@ -273,7 +273,7 @@ static Verdict runC07(const Case &cs) {
       if (!b) return v;
       Conf cf; cf.la = la; cf.one = one; cf.rec = 1; cf.match = match;
       ParseOpts po; po.den_limit = 300;
-      yaep_verif.rec_limit = 20000;
+      yaep_verif.rec_limit = REC_LIMIT;
       Outcome o = runParse(*b, codes, cf, po);
       v.parses++;
       std::string where = " [" + cf.str() + " input=" + inputStr(codes) + " sentence=" + std::to_string(sent) + "] got " + o.str();
@@ -406,7 +406,7 @@ static Verdict runC08(const Case &cs) {
       if (!b) return v;
       Conf cf; cf.la = la; cf.one = 1; cf.rec = 1; cf.match = match;
       ParseOpts po; po.analyse_tree = false;
-      yaep_verif.rec_limit = 20000;
+      yaep_verif.rec_limit = REC_LIMIT;
       Outcome o = runParse(*b, codes, cf, po);
       v.parses++;
       std::string where = " [" + cf.str() + " input=" + inputStr(codes) + " first error token=" + std::to_string(re) + " reference minimum=" + std::to_string(best) + "] got " + o.str();
